@@ -26,12 +26,13 @@ PROPERTY = "C12"
 LEAN_TARGETS = ["Ipv8.C12.Props"]
 PROPS_FILE = "Ipv8/C12/Props.lean"
 DRIVER = "drv_c12"
-RULE = ("op sequences over a pool of 3-5 keys x (4 IPv4 + 3 IPv6 + 2 host-name addresses + 0.0.0.0:0) x 5 address "
+RULE = ("op sequences over a pool of 3-6 keys x (4 IPv4 + 3 IPv6 + 2 host-name addresses + 0.0.0.0:0 + 3 boundary addresses) x 5 address "
         "classes (UDPv4Address, UDPv6Address, tuple, UDPv4LANAddress, DomainAddress; constructor address or add_address) x "
         "services s1-s3 and the empty service id: add_verified_peer / discover_address / discover_services with fresh Peer "
         "objects or with the stored object, in-place add_address on the stored object, remove_peer (stored object or a "
         "fresh one), remove_by_address, blacklist appends, load_snapshot (valid, truncated, corrupted, UTF-8 host names), "
-        "interleaved with all get_* queries and snapshot; cache caps from {1,2,3,500}. Random sequences of length 10..200 "
+        "address arguments passed as objects of any of the 5 classes, up to two blacklisted mids, the implementation's own "
+        "snapshot fed back, interleaved with all get_* queries and snapshot; cache caps from {1,2,3,500}, raised mid-history. Random sequences of length 10..200 "
         "are steered by a reference graph so that removals, updates and lookups mostly hit existing peers/addresses; "
         "exhaustive enumeration of all sequences over a 20 op alphabet (3 keys, 3 addresses, 2 services; caps 1/1/1) to "
         "depth 3 (quick) / 4 (thorough) and over a 10 op sub-alphabet to depth 5 (thorough), each followed by a sweep of "
@@ -41,7 +42,7 @@ RULE = ("op sequences over a pool of 3-5 keys x (4 IPv4 + 3 IPv6 + 2 host-name a
 TRUSTED_BASE = [
     "tools/gen_c12.py: reads ADDRESS_TYPE_* constants, the struct formats of Address.pack/unpack (AST), Peer.INTERFACE_ORDER and the three cache caps",
     "hand-written model of every Network mutator/query incl. LRU side effects (Ipv8/C12/Model.lean), tied by the correspondence run; cache ORDER/eviction policy is tied only through answers and the cap bound",
-    "the Python reference graph `Spec` (harness/c12.py) and the Lean `Graph.step` are transcriptions of what the code's mutators do to the membership (without index and caches), not an independent specification of the mutators; what is independent is the meaning of each lookup",
+    "the Python reference graph `Spec` (harness/c12.py) and the Lean `Graph.step` are transcriptions of what the code's mutators do to the membership (without index and caches), not an independent specification of the mutators; what is independent is the meaning of the by-key / by-address lookups; the per-service, walkable and introduction conditions restate the code's filters",
     "object identity of Peer instances is modelled as generation numbers (index, set, address cache); the service cache is by key; the harness checks identity on the real objects",
     "PeerObserver callbacks are checked by the oracle only; they are not in the Lean model",
     "socket.inet_pton/inet_ntop (text form <-> bytes of an address) are outside the model",
@@ -49,8 +50,8 @@ TRUSTED_BASE = [
 ASSUMPTIONS = [
     "Peer.mid (SHA-1 of the key) is injective on the keys in use; the model identifies a mid with its key",
     "addresses are in canonical text form (inet_ntop output; a non-canonical IPv6 text does not survive snapshot/load in the code), ports < 65536, host names < 65536 bytes and not parseable as IP",
-    "callers mutate a stored Peer only through Peer.add_address on the object they got from the index (modelled as an op) and only append to the blacklists; a Peer object that was removed is not passed in again",
-    "cache caps are set before the first operation and not lowered afterwards",
+    "callers mutate a stored Peer only through Peer.add_address on the object they got from the index (modelled as an op) and only append to the blacklists; a Peer object that was removed is not passed in again (production re-submits removed identities as fresh Peer objects)",
+    "cache caps are not lowered during a history (raising them is generated)",
     "single-threaded use (graph_lock not modelled)",
 ]
 
@@ -280,7 +281,8 @@ class Spec:
     """Reference graph: membership (verified peers, their addresses, advertised services), known addresses, blacklists —
     no index, no caches.  The *answers* below are the specification (what each lookup means).  The *mutators* follow
     what network.py does to the membership; where network.py takes a decision that the property does not fix (`peek`
-    points, marked TOLERANT) the reference graph follows the implementation instead of pinning today's behaviour."""
+    points, marked TOLERANT) the reference graph follows the implementation instead of pinning today's behaviour (so the ORACLE does not claim a
+    property failure there; the Lean model still mirrors today's code, so the run is red anyway: no-failing-input-found)."""
 
     def __init__(self, order=(1, 0, 2)):
         self.order = order
@@ -372,7 +374,9 @@ class Spec:
     def peers_for(self, s):
         return {k for k in self.V if s in self.SV.get(k, ())}
 
-    def walkable(self, s, old_style):
+    def walkable(self, s, old_style, verified_introducers_only=False):
+        """`verified_introducers_only`: the stricter reading in which only VERIFIED introducers lend their advertised
+        services to the addresses they introduced (network.py today also counts identities that were never verified)"""
         if s == "s0":     # an empty service id means "no service" to network.py
             s = None
         known = self.V if s is None else self.peers_for(s)
@@ -384,7 +388,8 @@ class Spec:
                 intro, svc, ns = self.AA[a]
                 if old_style and ns:
                     continue
-                if s in (set(self.SV.get(intro, ())) | ({svc} if svc and svc != "s0" else set())):
+                lent = set(self.SV.get(intro, ())) if (intro in self.V or not verified_introducers_only) else set()
+                if s in (lent | ({svc} if svc and svc != "s0" else set())):
                     keep.add(a)
             out = keep
         return out
@@ -620,7 +625,13 @@ def check_query(ctx: Ctx, spec: Spec, real: Real, t, got: str, objs, history, li
     elif op == "qs":
         cmp_list(show_peer(k, spec.V[k]) for k in spec.peers_for(t[1]))
     elif op == "qw":
-        cmp_list(spec.walkable(None if t[1] == "-" else t[1], t[2] == "1"))
+        a_ = spec.walkable(None if t[1] == "-" else t[1], t[2] == "1")
+        b_ = spec.walkable(None if t[1] == "-" else t[1], t[2] == "1", verified_introducers_only=True)
+        if a_ != b_:
+            ctx.count("class:qw:answer-depends-on-unverified-introducer")
+        if got == show_list(b_):      # judged: either reading is accepted (design.d/C12.md, Judgements)
+            return
+        cmp_list(a_)
     elif op == "qi":
         cmp_list(spec.intros(int(t[1][1:])))
     elif op == "qsp":
@@ -815,15 +826,6 @@ def execute(ctx: Ctx, lines, tag: str):
             spec.mutate(t, real)
             sent.append(" ".join(full))
             answers.append(ans)
-            # PeerObserver callbacks: exactly the keys that entered / left the membership, once each
-            want = sorted([("added", k) for k in set(spec.V) - keys_before] + [("removed", k) for k in keys_before - set(spec.V)])
-            if sorted(events) != want:
-                ctx.oracle_fail(f"{_MUT_SITE[t[0]]}:observer-events", f"after `{' '.join(t)}` observers saw {sorted(events)}, "
-                                f"membership changed by {want}", {"lines": sent[:], "failing_line": i})
-                ctx.count(f"oracle_fail:{_MUT_SITE[t[0]]}:observer-events")
-                return sent, answers, False
-            for ev, _k in want:
-                ctx.count("class:observer:" + ev)
             last = real.digest()
             if last != spec.digest():
                 d_r, d_s = last, spec.digest()
@@ -833,6 +835,15 @@ def execute(ctx: Ctx, lines, tag: str):
                                 {"lines": sent[:], "failing_line": i})
                 ctx.count(f"oracle_fail:{_MUT_SITE[t[0]]}:{part}")
                 return sent, answers, False
+            # PeerObserver callbacks: exactly the keys that entered / left the membership, once each
+            want = sorted([("added", k) for k in set(spec.V) - keys_before] + [("removed", k) for k in keys_before - set(spec.V)])
+            if sorted(events) != want:
+                ctx.oracle_fail(f"{_MUT_SITE[t[0]]}:observer-events", f"after `{' '.join(t)}` observers saw {sorted(events)}, "
+                                f"membership changed by {want}", {"lines": sent[:], "failing_line": i})
+                ctx.count(f"oracle_fail:{_MUT_SITE[t[0]]}:observer-events")
+                return sent, answers, False
+            for ev, _k in want:
+                ctx.count("class:observer:" + ev)
         else:
             before = last
             try:
@@ -890,7 +901,7 @@ def rand_peer(rng, k):
     return peer_token(k, slots, ctor)
 
 
-UTF8_HOSTS = ["nödé.example".encode(), "点.example".encode(), b"plain.example", "x\U0001f600y".encode()]
+UTF8_HOSTS = ["nödé.example".encode(), "点.example".encode(), b"plain.example", "x\U0001f600y".encode(), b"", b"x"]
 BAD_HOSTS = [b"\xff\xfe.example", b"ab\xc3", b"\xed\xa0\x80x", b"\xc0\xaf"]
 
 
@@ -926,18 +937,27 @@ def random_sequence(rng, length, nkeys):
 
     def emit(ln):
         t = resolve(ln.split(), lambda k, st: peer_token(k, g.V[k], stored=st) if k in g.V else None)
-        if t[0] in MUTATORS:
-            g.mutate(t)
+        if t[0] in MUTATORS and not (t[0] == "load" and t[1] == "*"):
+            g.mutate(strip_classes(t))
         lines.append(ln)
 
-    if rng.random() < 0.2:
-        emit("blm p%d" % keys[-1])
+    def typed(a):
+        """the address as an argument object of some class: what an endpoint produces (default), or explicitly typed"""
+        r = rng.random()
+        if r < 0.6:
+            return a
+        return a + "~%d" % rng.choice([0, 2, 3] if a[0] == "4" else [1, 2] if a[0] == "6" else [2, 4])
+
+    bl_keys = keys[-2:] if nkeys >= 4 else keys[-1:]     # identities that may get blacklisted (never all of them)
+    for bk in bl_keys:
+        if rng.random() < 0.2:
+            emit("blm p%d" % bk)
     if rng.random() < 0.3:
-        emit("bla %s" % rng.choice(addrs))
+        emit("bla %s" % typed(rng.choice(addrs)))
     if rng.random() < 0.15:
         emit("load %s" % rand_snapshot(rng, addrs))
     weights = [("add", 14), ("disc", 12), ("svcs", 9), ("set", 6), ("rmp", 7), ("rma", 6), ("bla", 1), ("blm", 0.3),
-               ("load", 1.5), ("qa", 12), ("qk", 6), ("qs", 8), ("qw", 9), ("qi", 8), ("qsp", 2), ("qn", 1), ("snap", 2)]
+               ("load", 1.5), ("caps", 0.4), ("qa", 12), ("qk", 6), ("qs", 8), ("qw", 9), ("qi", 8), ("qsp", 2), ("qn", 1), ("snap", 2)]
     names = [w[0] for w in weights]
     ws = [w[1] for w in weights]
 
@@ -960,7 +980,7 @@ def random_sequence(rng, length, nkeys):
         if op == "add":
             emit("add " + ptok)
         elif op == "disc":
-            emit("disc %s %s %s %d" % (ptok, some_addr() if rng.random() < 0.5 else rng.choice(addrs),
+            emit("disc %s %s %s %d" % (ptok, typed(some_addr() if rng.random() < 0.5 else rng.choice(addrs)),
                                        rng.choice(svcs + ["-"]), rng.random() < 0.4))
         elif op == "svcs":
             n = rng.choice([0, 1, 1, 1, 2, 3])
@@ -973,15 +993,18 @@ def random_sequence(rng, length, nkeys):
             kk = some_key(g.V)
             emit("rmp " + (f"p{kk}:*" if rng.random() < 0.7 else rand_peer(rng, kk).replace("^", "")))
         elif op == "rma":
-            emit("rma " + some_addr())
+            emit("rma " + typed(some_addr()))
         elif op == "bla":
-            emit("bla " + rng.choice(addrs))
+            emit("bla " + typed(rng.choice(addrs)))
         elif op == "blm":
-            emit("blm p%d" % keys[-1])
+            emit("blm p%d" % rng.choice(bl_keys))
         elif op == "load":
-            emit("load %s" % rand_snapshot(rng, addrs))
+            emit("load %s" % ("*" if rng.random() < 0.3 else rand_snapshot(rng, addrs)))
+        elif op == "caps":
+            caps = [max(c, rng.choice([1, 2, 3, 500])) for c in caps]      # caps are only ever raised
+            lines.append("caps %d %d %d" % tuple(caps))
         elif op == "qa":
-            emit("qa %s ?" % some_addr())
+            emit("qa %s ?" % typed(some_addr()))
         elif op == "qk":
             emit("qk p%d" % some_key(g.V))
         elif op == "qs":
@@ -993,7 +1016,7 @@ def random_sequence(rng, length, nkeys):
         elif op == "qsp":
             emit("qsp p%d" % some_key(g.SV))
         elif op == "qn":
-            emit("qn " + some_addr())
+            emit("qn " + typed(some_addr()))
         else:
             emit("snap")
     sw = sweep_lines(keys, addrs)
@@ -1122,6 +1145,18 @@ def scripted():
         # load: unknown type byte / bad UTF-8 host in front of a good entry; valid multi-byte host
         [c500, "load 09" + addr_chunk(a).hex(), "qw - 0", "load " + addr_chunk(b).hex() + "020002fffe1388" + addr_chunk(a).hex(), "qw - 0"],
         [c500, "load " + dom_chunk("nöd.x".encode(), 5000).hex() + addr_chunk(a).hex(), "qw - 0", "snap"],
+        # a peer known under one address class is found / removed / blacklisted through an argument of another class
+        [c500, f"add p0:3={a}", f"qa {a}~0 ?", f"qa {a}~2 ?", f"qa {a}~3 ?", f"rma {a}~0", "qk p0"],
+        [c500, f"add p0:0={a}", f"qa {a}~3 ?", f"rma {a}~3", "qk p0", f"bla {b}~3", f"add p1:0={b}", "qk p1",
+         f"disc p0:0={a} {b}~0 s1 0", "qw - 0"],
+        # boundary addresses: port 0 on a real host, zero host with a real port, highest port
+        [c500, f"add p0:0={EDGE[0]}", f"add p1:0={EDGE[1]}", f"add p2:0={EDGE[2]}", "snap", f"qa {EDGE[0]} ?", "load *", "qw - 0"],
+        [c500, f"add p0:0={ZERO}", f"add p1:1={V6[0]}", "snap", "load *", "qw - 0"],
+        # two blacklisted identities
+        [c500, "blm p0", "blm p1", f"add p1:0={a}", f"add p0:0={b}", f"add p2:0={x}", "qk p0", "qk p1", "qk p2",
+         f"disc p1:0={a} {V4[3]} s1 0", "svcs p1:- [s2]", "qw s2 0", "qi p1"],
+        # caps raised in the middle of a history
+        ["caps 1 1 1", f"add p0:0={a}", f"add p1:0={b}", f"qa {a} ?", f"qa {b} ?", "caps 2 2 2", f"qa {a} ?", f"qa {b} ?", "qs s1", "qs s2"],
         # snapshot -> load: only the service-less query sees the loaded addresses
         [c500, "load " + addr_chunk(a).hex() + addr_chunk(b).hex(), "qw - 0", "qw s1 0", f"add p0:0={a}", "qw - 0", "snap"],
     ]
@@ -1137,7 +1172,7 @@ def run(ctx: Ctx):
     seqs = []
     for i in range(ctx.scale(1500, 10000)):
         length = rng.choice([10, 20, 40, 80, 200]) if i % 10 else 200
-        seqs.append(random_sequence(rng, length, rng.choice([3, 3, 4, 5])))
+        seqs.append(random_sequence(rng, length, rng.choice([3, 3, 4, 5, 6])))
         if len(seqs) >= 2000:
             run_batch(ctx, seqs, "random", use_model)
             seqs = []
@@ -1147,11 +1182,12 @@ def run(ctx: Ctx):
 
 
 def search(ctx: Ctx, reason: str):
-    run_batch(ctx, [s + EXH_SWEEP for s in scripted()], "search", False)
-    exhaustive(ctx, 4, False)
+    """implementation-only search after an obligation broke; sized so that a red quick run stays well under 3 minutes"""
     rng = ctx.rng
-    run_batch(ctx, [random_sequence(rng, rng.choice([20, 60, 200]), rng.choice([3, 4, 5])) for _ in range(6000)],
-              "search", False)
+    run_batch(ctx, [random_sequence(rng, rng.choice([20, 60, 200]), rng.choice([3, 4, 5, 6]))
+                    for _ in range(ctx.scale(1500, 8000))], "search", False)
+    if ctx.thorough():
+        exhaustive(ctx, 4, False)
 
 
 def replay(ctx: Ctx, rec: dict):
